@@ -46,31 +46,29 @@ def main():
         rc1, o1 = sh("/venv/bin/python out_demo/demo.py %s" % wt, cwd=wt, env=env)
         meta["demo_with_change_rc"] = rc1
         meta["demo_with_change_tail"] = o1.strip().splitlines()[-3:]
+        ok = meta.get("applies") and meta["demo_without_change_rc"] == 0 and meta["demo_with_change_rc"] != 0 and meta["tests_passed_with_change"] == 119 and "failed" not in meta["tests_tail"]
+        meta["confirmed"] = bool(ok)
+        print(json.dumps({k: meta[k] for k in ("applies", "demo_without_change_rc", "demo_with_change_rc", "tests_passed_with_change", "tests_tail", "confirmed")}))
+        # run the checks against the changed tree (the scratch worktree, via PGMC_REPO, so that
+        # several trials can run side by side without touching /repo)
+        results = {}
+        sh("git checkout -- . ; git clean -fdq -e out_demo", cwd=wt)
+        rc, out = sh("git apply %s" % patch, cwd=wt)
+        ev = "/tmp/mv-%s-ev" % sid
+        cenv = dict(os.environ, PGMC_REPO=wt, PGMC_EVIDENCE_DIR=ev, PGMC_REPLAY_DIR=ev + "/replays")
+        for cid in [prop] + extra:
+            rcc, oc = sh("timeout -k 5 900 ./check %s --tier quick" % cid, cwd=VERIF, timeout=1000, env=cenv)
+            viol = [l for l in oc.splitlines() if l.startswith("VIOLATION")]
+            first = ""
+            for i, l in enumerate(oc.splitlines()):
+                if l.startswith("VIOLATION"):
+                    first = " | ".join(x.strip() for x in oc.splitlines()[i + 1:i + 3])[:400]
+                    break
+            results[cid] = {"exit": rcc, "violation_lines": len(viol), "first": first, "summary": oc.strip().splitlines()[-1][:300] if oc.strip() else ""}
+            print(cid, "exit", rcc, "violations", len(viol), first[:200])
+        sh("rm -rf %s" % ev)
     finally:
         sh("git -C /repo worktree remove --force %s" % wt)
-    ok = meta.get("applies") and meta["demo_without_change_rc"] == 0 and meta["demo_with_change_rc"] != 0 and meta["tests_passed_with_change"] == 119 and "failed" not in meta["tests_tail"]
-    meta["confirmed"] = bool(ok)
-    print(json.dumps({k: meta[k] for k in ("applies", "demo_without_change_rc", "demo_with_change_rc", "tests_passed_with_change", "tests_tail", "confirmed")}))
-    # run the checks against /repo with the change applied
-    rc, out = sh("git -C /repo status --porcelain --untracked-files=no")
-    assert out.strip() == "", "/repo not clean: " + out
-    results = {}
-    try:
-        rc, out = sh("git -C /repo apply %s" % patch)
-        if rc == 0:
-            for cid in [prop] + extra:
-                rcc, oc = sh("timeout -k 5 900 ./check %s --tier quick" % cid, cwd=VERIF, timeout=1000)
-                viol = [l for l in oc.splitlines() if l.startswith("VIOLATION")]
-                first = ""
-                for i, l in enumerate(oc.splitlines()):
-                    if l.startswith("VIOLATION"):
-                        first = " | ".join(x.strip() for x in oc.splitlines()[i + 1:i + 3])[:400]
-                        break
-                results[cid] = {"exit": rcc, "violation_lines": len(viol), "first": first, "summary": oc.strip().splitlines()[-1][:300] if oc.strip() else ""}
-                print(cid, "exit", rcc, "violations", len(viol), first[:200])
-    finally:
-        sh("git -C /repo checkout -- .")
-        sh("rm -rf %s/replays/*" % VERIF)
     meta["checks"] = results
     meta["detected_by"] = [c for c, r in results.items() if r["exit"] == 1 and r["violation_lines"]]
     dst = os.path.join(VERIF, "seeded", sid)
@@ -78,11 +76,9 @@ def main():
     for f in ("patch.diff", "demo.py", "notes.md"):
         if os.path.exists(os.path.join(src, f)):
             shutil.copy(os.path.join(src, f), os.path.join(dst, f))
-    meta["ran"] = "tools/mutant.py: scratch worktree (apply, pytest, demo with/without), then git -C /repo apply; ./check <id> --tier quick; git -C /repo checkout -- ."
+    meta["ran"] = "tools/mutant.py: scratch worktree of /repo HEAD (git apply, pytest, demo with/without the change), then PGMC_REPO=<worktree> ./check <id> --tier quick (same code path as against /repo, evidence redirected), worktree removed"
     with open(os.path.join(dst, "meta.json"), "w") as f:
         json.dump(meta, f, indent=1)
-    # evidence files were rewritten by the mutant run: restore them from git
-    sh("git checkout -- evidence", cwd=VERIF)
     print("detected_by:", meta["detected_by"], "confirmed:", meta["confirmed"])
 
 
